@@ -12,7 +12,7 @@
 (*   attrs  set of [name, text]   (unqualified attributes)                  *)
 (*   kids   sequence of nodes     (element content, in order)               *)
 (*   text   string or "-"         (simple content)                          *)
-(* Leaf texts come from the token table Tok: carrier -> token -> [lit,text] *)
+(* Leaf texts come from the token table Tok: carrier or XSD type -> token -> [lit,text] *)
 (* (`lit` = the Rust literal the driver writes, `text` = its XSD lexical    *)
 (* form) - the only trusted correspondence in the pipeline.                 *)
 (***************************************************************************)
@@ -28,10 +28,13 @@ Count(plan, i, w) == CASE w = "Bare" -> 1
                        [] OTHER -> (IF plan \in {"max", "wide"} THEN 3 ELSE IF Present(plan, i) THEN 1 ELSE 0)
 LeafTok(plan) == CASE plan = "min" -> "lo" [] plan \in {"max", "wide"} -> "hi" [] OTHER -> "esc"
 LeafText(plan, carrier) == Tok[carrier][LeafTok(plan)].text
+\* the token row of a builtin: the row of the XSD type itself where the table has one (date, duration, the sign-restricted
+\* integers, ...: types whose lexical space is narrower than their carrier's), else the row of the carrier
+TokKey(xsd, carrier) == IF xsd \in DOMAIN Tok THEN xsd ELSE carrier
 \* the text of a builtin-typed member m
 MemberText(plan, m) == IF plan = "wide" /\ m.xsd \in UnboundedUp THEN "2147483648"
                        ELSE IF plan = "wide" /\ m.xsd \in UnboundedDown THEN "-2147483649"
-                       ELSE LeafText(plan, m.target.rust)
+                       ELSE LeafText(plan, TokKey(m.xsd, m.target.rust))
 
 RECURSIVE Repeat(_, _)
 Repeat(x, n) == IF n = 0 THEN <<>> ELSE <<x>> \o Repeat(x, n - 1)
@@ -55,7 +58,7 @@ Content(S, c, plan, fuel) ==
        LET tgt == TargetOf(S, FileNamed(S, c.f), c.it, c.it.base)
            fs == EffFacets(S, c, 4) IN
        IF HasFacets(fs) /\ ValidText(fs) # "?" THEN [attrs |-> {}, kids |-> <<>>, text |-> ValidText(fs)]   \* a value inside the facets
-       ELSE IF tgt.k = "builtin" THEN [attrs |-> {}, kids |-> <<>>, text |-> LeafText(plan, tgt.rust)]
+       ELSE IF tgt.k = "builtin" THEN [attrs |-> {}, kids |-> <<>>, text |-> LeafText(plan, TokKey(c.it.base.n, tgt.rust))]
        ELSE IF tgt.k = "struct" /\ fuel > 0
             THEN Content(S, CHOOSE x \in StructComps(S) : x.ns = tgt.ns /\ x.n = tgt.n, plan, fuel - 1)
             ELSE [attrs |-> {}, kids |-> <<>>, text |-> "?"]
@@ -74,6 +77,27 @@ HasWide(S, c, fuel) ==
   ELSE LET ms == ExpFields(S, FileNamed(S, c.f), c.it, BodyOf(c)) IN
        \E i \in 1..Len(ms) : \/ ms[i].xsd \in UnboundedUp \cup UnboundedDown
                                \/ (ms[i].target.k = "struct" /\ \E x \in StructComps(S) : x.ns = ms[i].target.ns /\ x.n = ms[i].target.n /\ HasWide(S, x, fuel - 1))
+
+\* A component is PLAIN when the struct generated for it can hold exactly the instances of its type: no choice (the
+\* struct cannot say "one of"), and no optional / repeated GROUP (a flat member list cannot say "a,b,a,b").  For a plain
+\* component every value plan yields a schema-valid document, so an XSD validator must accept it (clause xsd_valid).
+RECURSIVE PlainPs(_)
+PlainPs(ps) == \A i \in 1..Len(ps) :
+   CASE ps[i].k \in {"el", "ref"} -> TRUE
+     [] ps[i].k = "seq" -> ps[i].min = 1 /\ ps[i].max = "1" /\ PlainPs(ps[i].ps)
+     [] OTHER -> FALSE
+RECURSIVE Plain(_, _, _)
+Plain(S, c, fuel) ==
+  IF fuel = 0 THEN FALSE
+  ELSE IF c.k = "simple" THEN TRUE
+  ELSE LET body == BodyOf(c)
+           f == FileNamed(S, c.f)
+           ms == ExpFields(S, f, c.it, body)
+           b == IF HasBase(body) THEN ResolveType(S, f, c.it, body.base) ELSE None
+       IN /\ PlainPs(body.content)
+          /\ (HasBase(body) => (b # None /\ Plain(S, b, fuel - 1)))
+          /\ \A i \in 1..Len(ms) : ms[i].target.k = "builtin"
+                 \/ (ms[i].target.k = "struct" /\ \E x \in StructComps(S) : x.ns = ms[i].target.ns /\ x.n = ms[i].target.n /\ Plain(S, x, fuel - 1))
 
 \* the document obtained by serialising a value of component c built by `plan`
 ExpInfoset(S, c, plan) ==
